@@ -215,6 +215,8 @@ def template(e):
         for v in e.values:
             if isinstance(v, ast.Constant):
                 out.append(('lit', v.value))
+            elif isinstance(v.value, ast.Constant) and isinstance(v.value.value, (str, int)) and not isinstance(v.value.value, bool):
+                out.append(('lit', str(v.value.value)))
             else:
                 out.append(('hole', norm(v.value)))
         return _merge(out)
@@ -268,17 +270,79 @@ def key_shape(t):
     return None
 
 
+def _is_ctx(f, e):
+    """self.eval_context, or a local that is assigned self.eval_context and nothing else"""
+    if is_self_attr(e, 'eval_context'):
+        return True
+    if isinstance(e, ast.Name):
+        defs = [s for s in own_nodes(f.node) if isinstance(s, ast.Assign) and any(is_name(t, e.id) for t in s.targets)]
+        return bool(defs) and all(is_self_attr(d.value, 'eval_context') for d in defs) and e.id not in f.params
+    return False
+
+
+def expand_locals(f, e, limit=16):
+    """the expressions ``e`` can stand for when plain locals inside it are replaced by what they are assigned
+    (every assignment of the local, both arms of a conditional expression): [expr, ...]"""
+    import copy
+    import itertools as _it
+    params = set(f.all_params)
+
+    def alts(x, depth=0):
+        if isinstance(x, ast.IfExp) and depth < 4:
+            return alts(x.body, depth + 1) + alts(x.orelse, depth + 1)
+        if isinstance(x, ast.Name) and x.id not in params and depth < 4:
+            defs = [s for s in own_nodes(f.node) if isinstance(s, ast.Assign) and any(is_name(t, x.id) for t in s.targets)]
+            aug = [s for s in own_nodes(f.node) if isinstance(s, (ast.AugAssign, ast.For)) and x.id in {y.id for y in ast.walk(s.target) if isinstance(y, ast.Name)}]
+            if defs and not aug:
+                out = []
+                for d in defs:
+                    out.extend(alts(d.value, depth + 1))
+                return out
+        return [x]
+    names = []
+    for x in ast.walk(e):
+        if isinstance(x, ast.Name) and isinstance(x.ctx, ast.Load) and x.id not in params and x.id not in names and len(alts(x)) >= 1 and alts(x) != [x]:
+            names.append(x.id)
+    if not names:
+        return [e]
+    choices = []
+    for nm in names:
+        choices.append(alts(ast.Name(id=nm, ctx=ast.Load())))
+    out = []
+    for combo in _it.islice(_it.product(*choices), limit):
+        m = dict(zip(names, combo))
+
+        class T(ast.NodeTransformer):
+            def visit_Name(self, node):
+                if isinstance(node.ctx, ast.Load) and node.id in m:
+                    return copy.deepcopy(m[node.id])
+                return node
+        out.append(T().visit(copy.deepcopy(e)))
+    return out
+
+
+def key_templates(f, keyexpr):
+    """every template a key expression can have (locals and conditional expressions expanded)"""
+    out = []
+    for ex in expand_locals(f, keyexpr):
+        for ex2 in (expand_locals(f, ex) if ex is not keyexpr else [ex]):
+            t = template(ex2)
+            if t not in out:
+                out.append(t)
+    return out
+
+
 def context_key_sites(em):
     """reads and writes of eval_context with a computed key: (func, node, 'read'|'write', key expr)"""
     out = []
     for f in em.repo.all_functions(('engine',)):
         for n in own_nodes_ordered(f.node):
-            if isinstance(n, ast.Subscript) and is_self_attr(n.value, 'eval_context'):
+            if isinstance(n, ast.Subscript) and _is_ctx(f, n.value):
                 kind = 'write' if isinstance(n.ctx, ast.Store) else 'read'
                 if not isinstance(n.slice, ast.Constant):
                     out.append((f, n, kind, n.slice))
             elif isinstance(n, ast.Call) and isinstance(n.func, ast.Attribute) and n.func.attr in ('get', 'setdefault', 'pop') \
-                    and is_self_attr(n.func.value, 'eval_context') and n.args and not isinstance(n.args[0], ast.Constant):
+                    and _is_ctx(f, n.func.value) and n.args and not isinstance(n.args[0], ast.Constant):
                 out.append((f, n, 'read' if n.func.attr == 'get' else 'write', n.args[0]))
     return out
 
@@ -306,28 +370,29 @@ def rule_key_templates(em, rep, rid, emitter_side=True):
     for f, n, kind, keyexpr in sites:
         if f.cls is not em.YP:
             continue
-        t = template(resolve_local_expr(f, keyexpr))
-        if f not in (q, reg) and key_shape(t) is None and not any(k == 'lit' and '_' in v for k, v in t):
-            continue        # a key that is merely passed through (e.g. the merge loop of a load)
-        shape = key_shape(t)
-        key = '%s:%s %s' % (f.qname, kind, norm(keyexpr))
-        n_ok += 1
-        if shape is None:
-            rep.violation(rid, key, 'predicate key %s does not have the form name_<arity> / name_n shared by the other '
-                          'readers and writers of the table' % t, f.loc(n))
-            continue
-        if shape == 'exact':
-            num = t[2][1]
-            okn = num.startswith('len(') or _is_int_local(f, num) or _int_at_call_sites(em, f, num)
-            if not okn:
-                rep.violation(rid, key, 'the arity part {%s} of the key is not an integer expression' % num, f.loc(n))
+        for t in key_templates(f, keyexpr):
+            if f not in (q, reg) and key_shape(t) is None and not any(k == 'lit' and '_' in v for k, v in t):
+                continue        # a key that is merely passed through (e.g. the merge loop of a load)
+            shape = key_shape(t)
+            key = '%s:%s %s' % (f.qname, kind, norm(keyexpr))
+            n_ok += 1
+            if shape is None:
+                rep.violation(rid, key, 'predicate key %s does not have the form name_<arity> / name_n shared by the other '
+                              'readers and writers of the table' % t, f.loc(n))
                 continue
-        name_hole = t[0][1]
-        params = f.params[1:]
-        if f in (q, reg) and name_hole != params[0]:
-            rep.violation(rid, key, 'the name part {%s} of the key is not the predicate name parameter %s' % (name_hole, params[0]), f.loc(n))
-            continue
-        rep.ok(rid, key, '%s key %s' % (shape, ''.join(v if k == 'lit' else '{%s}' % v for k, v in t)), f.loc(n))
+            if shape == 'exact':
+                num = t[2][1]
+                okn = num.startswith('len(') or _is_int_local(f, num) or _int_at_call_sites(em, f, num)
+                if not okn:
+                    rep.violation(rid, key, 'the arity part {%s} of the key is not an integer expression' % num, f.loc(n))
+                    continue
+            name_hole = t[0][1]
+            params = f.params[1:]
+            if f in (q, reg) and name_hole != params[0]:
+                rep.violation(rid, key, 'the name part {%s} of the key is not the predicate name parameter %s' % (name_hole, params[0]), f.loc(n))
+                continue
+            rep.ok(rid, key + (' [%s]' % shape if len(key_templates(f, keyexpr)) > 1 else ''),
+                   '%s key %s' % (shape, ''.join(v if k == 'lit' else '{%s}' % v for k, v in t)), f.loc(n))
     rep.minimum('predicate-key sites in query/register_function', n_ok, 4)
     if emitter_side:
         gen = em.repo.cls('yp_generator', 'YPPythonCodeGenerator')
@@ -414,9 +479,9 @@ def rule_exact_then_variadic(em, rep, rid):
     rep.rule(rid, 'in query() the variadic key name_n is consulted only as the default of the exact lookup name_<arity> '
                   '(nested get, conditional expression, or a second lookup guarded by the failure of the first)')
     q = _method(em, 'query')
-    sites = [(n, template(resolve_local_expr(q, k))) for f, n, kind, k in context_key_sites(em) if f is q and kind == 'read']
-    exact = [n for n, t in sites if key_shape(t) == 'exact']
-    var = [n for n, t in sites if key_shape(t) == 'variadic']
+    sites = [(n, key_templates(q, k)) for f, n, kind, k in context_key_sites(em) if f is q and kind == 'read']
+    exact = [n for n, ts in sites if ts and all(key_shape(t) == 'exact' for t in ts)]
+    var = [n for n, ts in sites if any(key_shape(t) == 'variadic' for t in ts)]
     key = q.qname + ':lookup'
     if not exact:
         rep.violation(rid, key, 'query() never looks up the exact-arity key', q.loc())
@@ -518,7 +583,7 @@ def rule_guarded_subscripts(em, rep, rid, fields=('_predicates_store', 'eval_con
                     rep.ok(rid, key, ok, f.loc(n))
                 else:
                     rep.violation(rid, key, 'an absent key raises KeyError here', f.loc(n))
-    rep.minimum('subscript loads on engine dictionaries', count, 2)
+    rep.minimum('subscript loads on engine dictionaries', count, 1)
 
 
 def rule_combine_order(em, rep, rid):
